@@ -21,6 +21,13 @@ def call(ex, st, fn, args, kw, node):
     if name == "isinstance":
         v, t = args
         tn = getattr(t, "name", None) or getattr(getattr(t, "info", None), "name", None)
+        if tn == "decimal.Decimal":
+            import decimal as _dec
+            if isinstance(v, Sym): yield st, v.ty.kind == "dec"; return
+            yield st, isinstance(v, _dec.Decimal); return
+        if tn == "int":
+            if isinstance(v, Sym): yield st, v.ty.kind == "int"; return
+            yield st, isinstance(v, int); return
         if tn == "str":
             if isinstance(v, str) or (isinstance(v, Sym) and v.ty.kind == "str"): yield st, True; return
             if isinstance(v, Sym) and v.ty.kind == "opt" and v.ty.args[0].kind == "str":
@@ -74,6 +81,30 @@ def call(ex, st, fn, args, kw, node):
                 if b: yield s2, Sym(INT, val)
                 else: yield s2, Raise(ex.new_builtin_exc(s2, "ValueError", ["invalid literal for int()"]))
             return
+    if name == "decimal.Decimal":
+        import decimal as _dec
+        v = args[0]
+        if isinstance(v, Sym) and v.ty.kind == "dec": yield st, v; return
+        if isinstance(v, Sym) and v.ty.kind == "int": yield st, Sym(DEC, mk_dec(z3.ToReal(v.z), True)); return
+        if isinstance(v, int) and not isinstance(v, bool): yield st, lift(_dec.Decimal(v)); return
+        if isinstance(v, str):
+            try: yield st, lift(_dec.Decimal(v))
+            except _dec.InvalidOperation: yield st, Raise(ex.new_builtin_exc(st, "InvalidOperation", ["invalid decimal literal"]))
+            return
+        if isinstance(v, Sym) and v.ty.kind == "str":
+            # A-DEC: abstract partial parse function; raises only decimal.InvalidOperation
+            ok = ex.absfun_s("dec_parses", [z3.StringSort()], z3.BoolSort())(v.z); val = ex.absfun_s("dec_of", [z3.StringSort()], sort_of(DEC))(v.z)
+            for s2, b in ex.fork(st, Sym(BOOL, ok)):
+                if b: yield s2, Sym(DEC, val)
+                else: yield s2, Raise(ex.new_builtin_exc(s2, "InvalidOperation", ["invalid decimal literal"]))
+            return
+        raise Unsupported("decimal.Decimal(%r)" % (v,))
+    if name in ("max", "min") and len(args) == 2 and all(isinstance(lift_or_none(a), Sym) for a in args):
+        a, b = lift(args[0]), lift(args[1])
+        if a.ty.kind == "int" and b.ty.kind == "int":
+            if not isinstance(args[0], Sym) and not isinstance(args[1], Sym): yield st, (max if name == "max" else min)(args[0], args[1]); return
+            c = (a.z >= b.z) if name == "max" else (a.z <= b.z)
+            yield st, Sym(INT, z3.If(c, a.z, b.z)); return
     if name == "object.__init__":
         if fn.bound is not None and isinstance(fn.bound, Ref): st.heap[fn.bound.oid]["args"] = tuple(args)
         yield st, None; return
@@ -111,7 +142,20 @@ class AbsMap:
     """field-name -> value map built by dict(zip(names, row)) ; kept abstract"""
     def __init__(self, keys, vals): self.keys = keys; self.vals = vals
 
+def lift_or_none(v):
+    try: return lift(v)
+    except TypeError: return None
+
 def method(ex, st, recv, name, args, kw, node=None):
+    if isinstance(recv, Sym) and recv.ty.kind == "dec":
+        if name == "is_finite": yield st, Sym(BOOL, dec_fin(recv.z)); return
+        if name == "copy_negate": yield st, Sym(DEC, mk_dec(-dec_val(recv.z), dec_fin(recv.z))); return
+        if name == "as_tuple":
+            # (sign, digits, exponent): digits as an abstract list whose length is dec_ndigits(d) >= 1; exponent abstract (A-DEC)
+            nd = ex.absfun_s("dec_ndigits", [sort_of(DEC)], z3.IntSort())(recv.z); exp = ex.absfun_s("dec_exponent", [sort_of(DEC)], z3.IntSort())(recv.z)
+            st.pc.append(nd >= 1)
+            dg = ex.absfun_s("dec_digit", [sort_of(DEC), z3.IntSort()], z3.IntSort())
+            yield st, (fresh(INT, "sign")[0], UFL(INT, (lambda i, r=recv.z: dg(r, i)), nd), Sym(INT, exp)); return
     if isinstance(recv, (str, Sym)) and (isinstance(recv, str) or recv.ty.kind == "str"):
         if name == "strip" and not args:
             if isinstance(recv, str): yield st, recv.strip(); return
